@@ -21,7 +21,7 @@ pub fn meta() -> Meta {
         rule: "for packets parsed from reference encodings (arbitrary compression, all 40 types, opaque/empty RDATA) and packets built from parts: every question, record, \
 name and RDATA value x is cloned and converted with into_owned; clone == x and owned == x where PartialEq exists; then the receive buffer is overwritten and dropped and \
 the owned copies are observed (model) and re-serialised: both must equal the original's model and bytes (this also covers TTL / cache-flush / unicast, which == ignores). \
-NSEC values are checked again after their public window list was reversed by the application (clone, into_owned, hash, bytes). Hash: for equal pairs obtained through different routes (parsed vs built, same record with different TTL / cache-flush, Name vs Name, RData vs RData) hashes must be equal under a fixed \
+every record is compared with a copy whose class was changed through the public field (if they compare equal they must hash equally; messages with several OPT records supply records holding OPT data); NSEC values are checked again after their public window list was reversed by the application (clone, into_owned, hash, bytes). Hash: for equal pairs obtained through different routes (parsed vs built, same record with different TTL / cache-flush, Name vs Name, RData vs RData) hashes must be equal under a fixed \
 DefaultHasher; InstanceInformation values built by inserting the same addresses/ports/attributes in different orders into separately created sets must be ==, hash equally and \
 be found by HashSet::contains. non-trivial = packet with >= 1 record or question / instance with >= 2 set members; distinct = hash of the case",
         assumptions: &["DefaultHasher::new() is deterministic (fixed keys)"],
@@ -74,6 +74,16 @@ pub fn check_bytes(ctx: &mut Ctx, family: &str, idx: u64, input: &[u8], built_tw
             t.cache_flush = !t.cache_flush;
             if t == **r && h(&t) != h(*r) { problems.push("eq-but-hash-differs:ttl-variant".into()); }
             if t != **r { problems.push("ttl-variant-not-equal".into()); }
+            // same record with another class, set through the public field: if the two compare equal (for whatever reason)
+            // they must hash equally and be found in a hash set
+            let mut cv = (*r).clone();
+            cv.class = if matches!(r.class, simple_dns::CLASS::IN) { simple_dns::CLASS::CH } else { simple_dns::CLASS::IN };
+            if cv == **r {
+                if h(&cv) != h(*r) { problems.push(format!("eq-but-hash-differs:class-variant:{}", type_name(u16::from(r.rdata.type_code())))); }
+                let mut set = HashSet::new();
+                set.insert((*r).clone());
+                if !set.contains(&cv) { problems.push(format!("hashset-misses-equal-record:class-variant:{}", type_name(u16::from(r.rdata.type_code())))); }
+            }
             // near-equal variants (ASCII case of the owner / of names inside the RDATA flipped): whatever the equality
             // policy is, values that compare equal must hash equally and be found in a hash set
             let flip = |n: &Name| -> Name<'static> {
@@ -299,6 +309,26 @@ pub fn run(ctx: &mut Ctx) {
         let b = encode(&m, Plan::Arbitrary(Rng::for_case(seed, "c16-plan", idx))).bytes;
         ctx.sample("parsed", || json!({"bytes": hex(&b)}));
         check_bytes(ctx, "parsed", idx, &b, Some(&p));
+    }
+    // messages with two or three OPT records: the parser lifts one, the others stay in the section as ordinary records
+    // holding OPT data (the only way such records come to exist besides building them by hand)
+    if ctx.family_active("opt-records") {
+        for idx in 0..if ctx.slow_tool { 4 } else { tier.pick(200u64, 5_000u64) } {
+            if !ctx.take("opt-records", idx) {
+                continue;
+            }
+            let mut r = ctx.rng("opt-records", idx);
+            let mut g = Gen::new(&mut r, Cfg { share: 30, max_entries: 2, max_rest: 10, edns: 0, ..Default::default() });
+            let mut m = MsgM { id: idx as u16, flags: 0x8400, ..Default::default() };
+            m.secs[0].push(g.record().to_wire());
+            for k in 0..2 + idx % 2 {
+                let opts = if (idx + k) % 2 == 0 { vec![] } else { vec![(10u16, vec![k as u8; 8]), (3, vec![])] };
+                m.secs[2].push(RRM::new(vec![], 41, 512 + (idx as u16 % 4096), ((k as u32) << 16) | 0x8000, Rd::Fields(vec![F::Pairs(opts)])));
+            }
+            let b = encode(&m, Plan::None).bytes;
+            ctx.add("messages_with_several_opt_records", 1);
+            check_bytes(ctx, "opt-records", idx, &b, None);
+        }
     }
     let ni = if ctx.slow_tool { 160 } else { tier.pick(20_000u64, 1_000_000u64) };
     for idx in 0..ni {
